@@ -146,8 +146,8 @@ func c05Targets(w *refgraph.World) []c05Target {
 						c05Target{u, []string{sec.name, mem.K, "get", "responses", "200", "schema"}, "schema"})
 				}
 				if sec.kind == "schema" {
-					// optional pointer-typed members of a schema that are not set
-					for _, unset := range []string{"not", "additionalProperties", "additionalItems", "externalDocs", "xml"} {
+					// optional members of a schema that are not set: pointer-typed, free-form (interface-typed), list- and string-typed
+					for _, unset := range []string{"not", "additionalProperties", "additionalItems", "externalDocs", "xml", "example", "default", "enum", "discriminator"} {
 						if c05rot++; c05rot%3 == 0 {
 							out = append(out, c05Target{u, []string{sec.name, mem.K, unset}, "schema"})
 						}
